@@ -390,7 +390,23 @@ def inject_fault(rng, t, comms, kind=None):
         i = rng.randrange(len(p))
         a, b = rng.sample(comms, 2) if len(comms) > 1 else (comms[0], "ZZZ")
         amt = p[i]["amount"]
-        tot = "5" if amt.startswith("-") else "-5"
+        # magnitudes: ordinary, and products |amount| x |total| that underflow 28 decimals or overflow 96 bits (the sign
+        # rule is about the two signs, not about a computed product)
+        mag = rng.random()
+        if mag < 0.2:
+            a_abs, t_abs = "0.000000000000000001", "0.000000000003"
+        elif mag < 0.4:
+            a_abs, t_abs = "50000000000000000000", "5000000000"
+        elif mag < 0.5:
+            a_abs, t_abs = "0.0000000000000000000000000001", rng.choice(["0.3", "0.04"])
+        elif mag < 0.6:
+            a_abs, t_abs = rng.choice(["0.3", "2"]), "0.0000000000000000000000000001"
+        else:
+            a_abs, t_abs = None, "5"
+        if a_abs is not None:
+            amt = ("-" if amt.startswith("-") else "") + a_abs
+            p[i]["amount"] = amt
+        tot = t_abs if amt.startswith("-") else "-" + t_abs
         opening = {"v": "1.2", "c": rng.choice(comms)} if rng.random() < 0.4 else None
         p[i]["unit"] = {"comm": a, "opening": opening, "closing": {"k": "=", "v": tot, "c": b}}
         if rng.random() < 0.6:
